@@ -1,3 +1,3 @@
-(* C16: the executable definitions (no proofs): model A (job queue), model B (instruction budget),
+(* C16: the executable definitions (no proofs): model A (job queue; LoopCase: the loop with a poll counter and table-driven native jobs), model B (instruction budget),
    model C (promise / await ordering semantics). *)
-From C16 Require Export Jobs Budget Promise.
+From C16 Require Export Jobs LoopCase Budget Promise.
